@@ -431,7 +431,7 @@ pub fn cases(run_seed: u64, tier: &str, _scratch: &str) -> Vec<Value> {
     let mut sw = Rng::stream(run_seed, "swarm");
     let mut wl = Rng::stream(run_seed, "workload");
     let mut hs = Rng::stream(run_seed, "hashseed");
-    let gens = if tier == "thorough" { 5 } else { 3 };
+    let mut gens = if tier == "thorough" { 5 } else { 3 };
     let files = c11::corpus_files();
     let mut c = new_case("C04", run_seed);
     if sw.chance(1, 3) && !files.is_empty() {
@@ -444,6 +444,10 @@ pub fn cases(run_seed: u64, tier: &str, _scratch: &str) -> Vec<Value> {
                 }
                 f = files[sw.usize(files.len())].clone();
             }
+        }
+        // the large corpus files cost minutes and gigabytes per generation chain
+        if std::fs::metadata(format!("{}/{}", c11::corpus_dir(), f)).map(|m| m.len() > 400_000).unwrap_or(false) {
+            gens = 3;
         }
         c["source"] = json!({"kind": "corpus", "file": f});
     } else {
